@@ -61,6 +61,8 @@ class Power(base.BinaryExpression):
         variable_name: str,
         point: Point
     ) -> float:
+        # Evaluate this node first so that both operands are checked for DomainErrors.
+        self._evaluate(point)
         if (not self._left._variable_names) and self._left._evaluate(point) == 1:
             # If we find something like `Constant(1) ** Whatever`, we can short-circuit.
             return 0
@@ -92,6 +94,8 @@ class Power(base.BinaryExpression):
         multiplier: float,
         point: Point
     ) -> None:
+        # Evaluate this node first so that both operands are checked for DomainErrors.
+        self._evaluate(point)
         if (not self._left._variable_names) and self._left._evaluate(point) == 1:
             # If we find something like `Constant(1) ** Whatever`, we can short-circuit.
             pass
